@@ -2,7 +2,10 @@
     [Ring::poll] that is in progress (called, not yet returned) at the wake's linearisation
     point (its [fetch_or]), or else the next one to start; the target returns without waiting
     for I/O or for its timeout. For any number of wakers, of calls and of polls, every
-    interleaving, and the three ring modes (default, single issuer, kernel thread).
+    interleaving, the three ring modes (default, single issuer, kernel thread), every size of
+    the submission queue and any number of unrelated entries in it (a [wake] that finds the
+    queue full enters the kernel and tries again; safety only: the termination of that loop is
+    not claimed, a retrying waker counts as "inside its call").
     Property theorems only; model in Model/Wake.v, proofs in Proofs/WakeProofs.v. *)
 From A10 Require Import Base.Word Base.Run Gen.Consts Model.Wake Proofs.WakeProofs.
 
@@ -14,7 +17,7 @@ Proof. exact no_lost_ring_wakeup_holds. Qed.
 
 (** The invariant behind it: whenever the poller is blocked in the kernel and a wake-up is
     owed, a completion is in the queue, a wake message is published, or a waker is committed
-    to post one. *)
+    to post one (inside [add], or between an [add] that failed on a full queue and its retry). *)
 Theorem C11_wake_is_on_its_way : wake_is_on_its_way.
 Proof. exact wake_is_on_its_way_holds. Qed.
 
@@ -23,8 +26,9 @@ Proof. exact wake_is_on_its_way_holds. Qed.
 Theorem C11_awoken_bit_makes_next_poll_prompt : awoken_bit_makes_next_poll_prompt.
 Proof. exact awoken_bit_makes_next_poll_prompt_holds. Qed.
 
-(** On every schedule whatsoever: a published, unconsumed wake message has a submitter (the
-    kernel thread, or a waker about to [enter] with a [to_submit] that covers it). *)
+(** On every schedule whatsoever: a published, unconsumed wake message ([sqo] counts the pending
+    entries, at the front, that are not wake messages) has a submitter (the kernel thread, or a
+    waker about to [enter] with a [to_submit] that covers it). *)
 Theorem C11_pending_message_has_a_submitter : pending_message_has_a_submitter.
 Proof. exact pending_message_has_a_submitter_holds. Qed.
 
@@ -40,13 +44,13 @@ Proof. exact owed_poller_is_resumable_or_a_waker_is_running_holds. Qed.
     progress at waker 1's call returned after it). *)
 Theorem C11_strict_target_reading_refuted :
   exists es,
-    valid (init Default 2 [1%nat; 1%nat]) es
-    /\ (let s := fst (run step (init Default 2 [1%nat; 1%nat]) (firstn 16 es)) in
+    valid (init Default 8 0 2 [1%nat; 1%nat]) es
+    /\ (let s := fst (run step (init Default 8 0 2 [1%nat; 1%nat]) (firstn 16 es)) in
         nth_error es 16 = Some (W 1)
         /\ pp s = PWbH /\ polls s = 2%nat /\ pstate s = N.lor IS_POLLING IS_AWOKEN
-        /\ nth_error (wakers s) 1 = Some {| wp := WIdle; calls := 1 |}
-        /\ nth_error (wakers (wstep s 1)) 1 = Some {| wp := WIdle; calls := 0 |})
-    /\ (let s := fst (run step (init Default 2 [1%nat; 1%nat]) es) in
+        /\ nth_error (wakers s) 1 = Some {| wp := WIdle; calls := 1; wok := false |}
+        /\ nth_error (wakers (wstep s 1)) 1 = Some {| wp := WIdle; calls := 0; wok := false |})
+    /\ (let s := fst (run step (init Default 8 0 2 [1%nat; 1%nat]) es) in
         pp s = PInKernel /\ polls s = 1%nat /\ cq s = 0 /\ sqh s = sqt s
         /\ all_wakers_finished s /\ ev_ok s Stuck
         /\ owed s = false /\ lost s = false
@@ -60,27 +64,27 @@ Check C11_pending_message_has_a_submitter : pending_message_has_a_submitter.
 Check C11_owed_poller_is_resumable_or_a_waker_is_running :
   owed_poller_is_resumable_or_a_waker_is_running.
 Check (C11_no_lost_ring_wakeup :
-  forall m npolls wcalls es, valid (init m npolls wcalls) es ->
-    lost (fst (run step (init m npolls wcalls) es)) = false).
+  forall m c prefill npolls wcalls es, valid (init m c prefill npolls wcalls) es ->
+    lost (fst (run step (init m c prefill npolls wcalls) es)) = false).
 Check (C11_wake_is_on_its_way :
-  forall m npolls wcalls es, valid (init m npolls wcalls) es ->
-    let s := fst (run step (init m npolls wcalls) es) in
+  forall m c prefill npolls wcalls es, valid (init m c prefill npolls wcalls) es ->
+    let s := fst (run step (init m c prefill npolls wcalls) es) in
     pp s = PInKernel -> owed s = true ->
       0 < cq s \/ sqh s < sqt s \/ exists i w, nth_error (wakers s) i = Some w /\ wp w <> WIdle).
 Check (C11_awoken_bit_makes_next_poll_prompt :
   forall s, pp s = PSetPolling -> N.testbit (pstate s) 1 = true ->
     let s' := pstep s in aw s' = true /\ pstate s' = IS_POLLING).
 Check (C11_pending_message_has_a_submitter :
-  forall m npolls wcalls es,
-    let s := fst (run step (init m npolls wcalls) es) in
-    sqh s < sqt s ->
+  forall m c prefill npolls wcalls es,
+    let s := fst (run step (init m c prefill npolls wcalls) es) in
+    sqh s + sqo s < sqt s ->
       md s = KernelThread
       \/ exists i w, nth_error (wakers s) i = Some w /\ (wp w = WEnterH \/ wp w = WEnterT)).
 Check (C11_owed_poller_is_resumable_or_a_waker_is_running :
-  forall m npolls wcalls es, valid (init m npolls wcalls) es ->
-    let s := fst (run step (init m npolls wcalls) es) in
+  forall m c prefill npolls wcalls es, valid (init m c prefill npolls wcalls) es ->
+    let s := fst (run step (init m c prefill npolls wcalls) es) in
     pp s = PInKernel -> owed s = true ->
-      0 < cq s \/ (md s = KernelThread /\ sqh s < sqt s)
+      0 < cq s \/ (md s = KernelThread /\ sqh s + sqo s < sqt s)
       \/ exists i w, nth_error (wakers s) i = Some w /\ wp w <> WIdle).
 (* the schedule predicate, pinned *)
 Check (eq_refl : ev_ok = fun s e =>
@@ -97,6 +101,7 @@ Check (valid_cons : forall s e es, ev_ok s e -> valid (fst (step s e)) es -> val
 Check (wake_example_default : blocked_then_woken Default wake_schedule_default 5).
 Check (wake_example_kthread : blocked_then_woken KernelThread wake_schedule_kthread 4).
 Check (wake_example_single : blocked_then_woken SingleIssuer wake_schedule_single 5).
+Check wake_example_queue_full.
 Print Assumptions C11_no_lost_ring_wakeup.
 Print Assumptions C11_wake_is_on_its_way.
 Print Assumptions C11_awoken_bit_makes_next_poll_prompt.
@@ -106,3 +111,4 @@ Print Assumptions C11_strict_target_reading_refuted.
 Print Assumptions wake_example_default.
 Print Assumptions wake_example_kthread.
 Print Assumptions wake_example_single.
+Print Assumptions wake_example_queue_full.
